@@ -75,6 +75,12 @@ PROPS["C07"] = {
     "level_note": "SHA3-256/384 idealised as injective (hypotheses of the theorem, not axioms); tag forgery excluded (2^-128); AEAD idealised for the PKE / header part; tools/gen_tables.py extraction of hasher.update sequences trusted",
 }
 
+PROPS["C08"] = {
+    "modules": ["CC.Props.C08"], "campaigns": [hist("C08", BOTH)], "quick_configs": ONE,
+    "level_text": "Lean theorems about the byte stream `sign` feeds KMAC (model CC.Mac.input over the decoded wire form): among keys of the same shape (marker, name, chain and leaf lengths, flavours) the stream determines identifier, rights and secrets in their exact arrangement, so an accepted key of that shape is the issued one; other signature / identifier / stream => rejected; unverified keys are refused with nothing modified. The full statement (injectivity without the shape hypothesis) is disproved by two witnesses (known finding D9). Correspondence + specification oracle: 35 tampering operators on every version of issued keys, the real refresh_usk verdict compared with the byte-level model and with `only the issued key is accepted`",
+    "level_note": "KMAC256 idealised: a tag verifies only for the exact stream it was computed on under the same key (2^-256 forgery excluded); the harness's independent wire reader; acceptance checked on copies of the master key with both refresh flags",
+}
+
 # operations whose ok/err status or outcome is what the property talks about
 BEHAVIOUR_KINDS = {"behaviour", "status", "panic"}
 
